@@ -93,8 +93,14 @@ class Effects:
             if r.startswith("param:") and not w:
                 nm = r[6:].split(".")[0]
                 if nm in params: rets.add(params.index(nm))
+        # module-level objects handed out / written by the function (a scratch buffer kept in a module dictionary, ...)
+        rets_g = {roots(l)[0] for l in strip(A.returns)[0] if roots(l)[0].startswith("global:")}
+        writes_g = set()
+        for sk in A.sinks:
+            for l in strip(sk.sources)[0]:
+                if roots(l)[0].startswith("global:") and sk.kind in ("out=", "callee-write", "store", "augassign-store", "copy=False"): writes_g.add(roots(l)[0])
         sm = {"key": key, "params": params, "writes_param": set(writes), "returns_param": rets, "returns_fresh": FRESH in A.returns or not A.returns,
-              "sinks": writes, "alias": A}
+              "sinks": writes, "alias": A, "returns_global": rets_g & writes_g, "writes_global": writes_g}
         s.busy.discard(key)
         s.summ[key] = sm
         return sm
@@ -183,7 +189,7 @@ def check_scratch_reuse(ctx, rule="R-scratch-buffer-not-clobbered", files=("spec
                     if sk.kind not in ("out=", "callee-write"): continue
                     for l in strip(sk.sources)[0]:
                         r = roots(l)[0]
-                        if (r.startswith("local:") or r.startswith("param:")) and any(roots(x)[0] == r for x in strip(al)[0]):
+                        if (r.startswith("local:") or r.startswith("param:") or r.startswith("global:")) and any(roots(x)[0] == r for x in strip(al)[0]):
                             fills.append((st, var, r))
             nfill += len(fills)
             fills.sort(key=lambda t: t[0].lineno)
